@@ -94,10 +94,70 @@ def _replay_extra(r):
     return None
 
 
+def _replay_offsets(r):
+    """real tomtom: one call with very many query columns; late queries against the same queries alone"""
+    import numpy
+    import torch
+    from tangermeme.tools.tomtom import tomtom
+    rs = numpy.random.RandomState(5)
+    base = [rs.dirichlet([0.5] * 4, size=l).T for l in (6, 9, 4, 11, 7, 5, 8, 10, 6, 10)]
+    targets = [rs.dirichlet([0.5] * 4, size=l).T for l in (8, 12, 6)]
+    kw = dict(n_jobs=1, reverse_complement=False, n_target_bins=None)
+    try:
+        alone = tomtom(base, targets, **kw)
+        for reps in (2, 20, 460):                      # 152, 1520, 34960 query columns (beyond 8-, and 16-bit counters)
+            res = tomtom(base * reps, targets, **kw)
+            for k in range(len(base) * reps):
+                if not torch.equal(res[:, k], alone[:, k % len(base)]):
+                    return True, "query %d of %d (start column %d) differs from the same query in a short call" % (k, len(base) * reps, sum(b.shape[1] for b in base) * (k // len(base)))
+    except Exception as e:
+        return True, "tomtom raised %s: %s" % (type(e).__name__, e)
+    return False, "ok"
+
+
+def _replay_history(r):
+    """real tomtom: queries with strong hits processed right after longer / differently scaled queries vs alone"""
+    import numpy
+    import torch
+    from tangermeme.tools.tomtom import tomtom
+    rs = numpy.random.RandomState(13)
+
+    def pwm(length):
+        m = rs.choice(17, p=[0.2] + [0.05] * 16, size=(length, 4)).astype(float)
+        m[m.sum(axis=1) == 0] = [1, 0, 0, 0]
+        return (m / m.sum(axis=1, keepdims=True)).T
+    targets = [pwm(l) for l in (7, 9, 12, 15, 18, 20, 6, 11, 14, 10)]
+    queries = []
+    for k, l in enumerate((3, 4, 5, 6, 8, 10, 12)):
+        queries.append(targets[2 + k % 4][:, 1:1 + l] * 0.9 + 0.025)
+        queries.append(pwm(l))
+    longs = [pwm(l) for l in (20, 16, 13)]
+    for kw in (dict(), dict(reverse_complement=False, n_jobs=1), dict(n_score_bins=20, n_jobs=1)):
+        try:
+            alone = [tomtom([q_], targets, **kw)[:, 0] for q_ in queries]
+            for lg in longs:
+                batch, idx = [], []
+                for j, q_ in enumerate(queries):
+                    batch += [lg, q_]
+                    idx += [-1, j]
+                res = tomtom(batch, targets, **kw)
+                for pos, j in enumerate(idx):
+                    if j >= 0 and not torch.equal(res[:, pos], alone[j]):
+                        d = (res[:, pos] - alone[j]).abs().amax(dim=1)
+                        return True, "a query of length %d processed after a query of length %d differs from the same query alone (max abs diff p/score/offset/overlap/strand %s)" % (queries[j].shape[-1], lg.shape[-1], d.tolist())
+        except Exception as e:
+            return True, "tomtom raised %s: %s" % (type(e).__name__, e)
+    return False, "ok"
+
+
 def replay(r):
     C.real_tangermeme()
     import numpy
     from tangermeme.tools.tomtom import tomtom
+    if r.get("mode") == "kernel_history":
+        return _replay_history(r)
+    if r.get("mode") == "offsets":
+        return _replay_offsets(r)
     if r.get("mode") in ("nearest_sym", "many", "annotate"):
         return _replay_extra(r)
     for seed in [r.get("seed", 0)] + list(range(12)):
@@ -185,7 +245,8 @@ def worker(cfg):
             nb_["n"] += 1
             if nb_["n"] > 12:
                 raise HavocDependence("more than 12 branches decided on uninitialised scratch memory")
-        ctx.state["on_branch"] = on_branch
+        if mode != "kernel_history":          # (there the histograms are symbolic: branching on them is not a dependence on scratch)
+            ctx.state["on_branch"] = on_branch
         try:
             if mode == "history":
                 base = {}
@@ -265,6 +326,73 @@ def worker(cfg):
                             add("annotate_seqlets:depends-on-co-annotated-seqlets", "annotation of seqlet %d differs when annotated together with %s" % (r_, sel))
                             return "returned"
                         ctx.stats.discharged += 1
+            elif mode == "kernel_history":
+                # per-thread scratch as _tomtom's own statements allocate it, then _p_value_backgrounds for query 1 followed by
+                # query 2 on the SAME scratch: every null-table cell query 2 can read must be the cell of a run on fresh scratch
+                # (both histograms fully symbolic, so a cell that still mentions query 1 or arbitrary memory is a dependence)
+                import ast as _ast
+                alloc, info = ld.slice_function("tools.tomtom", "_tomtom", lambda st, text: text.startswith("n = numba.get_num_threads()"),
+                                                lambda st, text: text.startswith("_A_csum ="), ["Q_max", "n_score_bins", "n_cache", "nt", "T_max"], ["_A", "_B", "_A_csum"])
+                out.setdefault("functions", []).append(info)
+                nb2, Qm, Tm, ncache = cfg["n_bins"], cfg["Q_max"], cfg["T_max"], cfg["n_cache"]
+                (nq1, off1), (nq2, off2) = cfg["first"], cfg["second"]
+
+                def hist(tag, nq):
+                    f = np.zeros((Qm, nb2 + 1), dtype=object)
+                    for i_ in range(nq):
+                        for l_ in range(nb2 + 1):
+                            v = core.Real("%s%d_%d" % (tag, i_, l_))
+                            ctx.assume(v > 0)
+                            f[i_, l_] = v
+                    return T.NDArray(f, dtype="float64")
+                f1, f2 = hist("f", nq1), hist("h", nq2)
+                A_, B_, Ac_ = alloc(Qm, nb2, ncache, 4, Tm)
+                tt._p_value_backgrounds(f1, A_[0], B_[0], Ac_[0], nq1, nb2, Tm, off1)
+                tt._p_value_backgrounds(f2, A_[0], B_[0], Ac_[0], nq2, nb2, Tm, off2)
+                A2, B2, Ac2 = alloc(Qm, nb2, ncache, 4, Tm)
+                tt._p_value_backgrounds(f2, A2[0], B2[0], Ac2[0], nq2, nb2, Tm, off2)
+                from symtm import poly as _poly
+                memo = {}
+                for nt_ in range(1, Tm + 1):
+                    for s_ in range(nb2 * nq2 + nq2 * off2):
+                        a_, b_ = B_.a[0, nt_, s_], B2.a[0, nt_, s_]
+                        ctx.stats.obligations += 1
+                        za, zb = core.zn(a_), core.zn(b_)
+                        same = False
+                        if "uninit!" not in str(zb):
+                            try:
+                                d_ = z3.simplify((z3.ToReal(za) if z3.is_int(za) else za) - (z3.ToReal(zb) if z3.is_int(zb) else zb))
+                                same = not _poly.to_poly(d_, memo, None)
+                            except ValueError:
+                                same = False
+                            if not same and "uninit!" not in str(za):
+                                ctx.stats.obligations -= 1
+                                same = ctx.prove(a_ == b_, "null table cell after another query == on fresh scratch") is None
+                                if same:
+                                    ctx.stats.discharged -= 1
+                        if same:
+                            ctx.stats.discharged += 1
+                        else:
+                            add("tomtom:depends-on-previous-query", "null table cell B[nt=%d, score=%d] of a query (length %d, offset %d) differs when the per-thread scratch was used by a query (length %d, offset %d) before" % (nt_, s_, nq2, off2, nq1, off1))
+                            return "returned"
+            elif mode == "offsets":
+                # start column of every query in the concatenated query matrix (statement range of _tomtom), symbolic lengths:
+                # fixed-width stores wrap in the model, so an index type that cannot hold the total number of columns is visible
+                blk, info = ld.slice_function("tools.tomtom", "_tomtom", lambda st, text: text.startswith("Q_offsets = "), lambda st, text: text.startswith("Q_offsets[1:]"), ["Q_lens"], ["Q_offsets"])
+                out.setdefault("functions", []).append(info)
+                nQ = cfg["n_queries"]
+                lens = [core.Int("qlen%d" % k) for k in range(nQ)]
+                for v in lens:
+                    ctx.assume(s_and(v >= 1, v <= cfg["max_block"]))
+                T.WRAP_SYMBOLIC[0] = True
+                try:
+                    (offs,) = blk(T.NDArray(np.array(lens, dtype=object), dtype="int64"))
+                finally:
+                    T.WRAP_SYMBOLIC[0] = False
+                cl = [offs.a[k] == s_sum(lens[:k]) if k else offs.a[0] == 0 for k in range(nQ + 1)]
+                m = ctx.prove(s_and(*cl), "query start columns are the running totals of the query lengths")
+                if m is not None:
+                    add("tomtom:query-offsets", "the start column of a query is not the total length of the queries before it (lengths %s)" % [core.model_value(m, v) for v in lens])
             elif mode == "nearest_sym":
                 # the n_nearest selection statement of _tomtom on ARBITRARY per-target results (p-values, scores, ... symbolic)
                 import ast as _ast
@@ -346,6 +474,13 @@ def configs(tier):
     for seed in ((1,) if q else (1, 3, 5)):
         cf.append(dict(mode="nearest", seed=seed, rc=True, n_score_bins=6, n_nearest=2))
     cf.append(dict(mode="nearest_sym", seed=0, rc=False, n_score_bins=6, n_targets=3, n_nearest=2))
+    cf.append(dict(mode="nearest_sym", seed=0, rc=False, n_score_bins=6, n_targets=3, n_nearest=3))          # n_nearest == number of targets
+    for first, second in (((2, 2), (1, 2)), ((2, 2), (2, 1)), ((2, 1), (2, 2)), ((1, 2), (2, 1)), ((2, 2), (1, 1))) if q else (((2, 2), (1, 1)), ((2, 2), (2, 1)), ((2, 1), (2, 2)), ((1, 2), (2, 1)), ((2, 2), (1, 2)), ((2, 0), (2, 2)), ((1, 1), (2, 2))):
+        cf.append(dict(mode="kernel_history", seed=0, rc=False, n_score_bins=2, n_bins=2, Q_max=2, T_max=2, n_cache=2, first=list(first), second=list(second)))
+    cf.append(dict(mode="kernel_history", seed=0, rc=False, n_score_bins=2, n_bins=2, Q_max=3, T_max=2, n_cache=2, first=[3, 2], second=[2, 1]))
+    if not q:
+        cf.append(dict(mode="kernel_history", seed=0, rc=False, n_score_bins=3, n_bins=3, Q_max=2, T_max=3, n_cache=1, first=[2, 1], second=[1, 1]))
+    cf.append(dict(mode="offsets", seed=0, rc=False, n_score_bins=2, n_queries=4, max_block=2 ** 40))
     cf.append(dict(mode="annotate", seed=1, rc=False, n_score_bins=5, n_nearest=2))
     cf.append(dict(mode="many", seed=2, rc=False, n_score_bins=4, n_queries=90, probe=[64, 65, 88, 89]))      # > 127 query columns in one call
     if not q:
